@@ -119,9 +119,13 @@ package router
 
 // ---- environment of the traffic handlers -------------------------------------------------------------
 // Routing changes only TTL and flow flags of the frame (and caches its parsed destination).
+// Every destination inside the routing prefix is looked up in the table (nothing is refused by address type), and the
+// frame goes to the next hop the table returned.
 //@ func Router.RouteFrame
 //@   requires nonnil(f) && f.data != nil
 //@   modifies f.data[1:3], f.dst
+//@   ensures every-routable-destination-is-looked-up [C10]: uf("prefixContains", bool, m.RoutingAddressPrefix, old(f.DstIP())) ==> called("RoutingTable.LookupNearestRoute")
+//@   callsite switchr.Switch.ForwardByPeer next-hop-from-the-table [C10]: rte != nil && arg2 == rte.NextHop
 
 // Starting a key exchange and answering the local stack are outside C06: assumed not to touch the packet, the
 // router's configuration or its wiring (trusted frames; bodies covered by the no-panic sweep only).
